@@ -14,6 +14,7 @@ func main() {
 	dir := flag.String("dir", "/repo", "module root")
 	out := flag.String("o", "", "output file (default stdout)")
 	explain := flag.String("explain", "", "print call chains for the edge \"A->B\"")
+	writes := flag.String("writes", "", "print the write sites instead: \"coq\" (gen/WriteSites.v) or \"list\" (one line per site)")
 	flag.Parse()
 	if *explain != "" {
 		ab := strings.SplitN(*explain, "->", 2)
@@ -31,6 +32,15 @@ func main() {
 		os.Exit(1)
 	}
 	s := r.Coq()
+	switch *writes {
+	case "coq":
+		s = r.WriteSitesCoq()
+	case "list":
+		s = ""
+		for _, w := range r.Guards.Sites {
+			s += fmt.Sprintf("%d %s %s %s fresh=%v W=%v R=%v %s:%d %s\n", w.ID, w.Kind, w.Obj, w.Op, w.Fresh, w.HeldW, w.HeldR, w.File, w.Line, w.Func)
+		}
+	}
 	if *out == "" {
 		fmt.Print(s)
 		return
